@@ -59,6 +59,7 @@ class FunctionSpec:
     keep_own_safety: bool = False      # with may_raise: only callees may raise; this function's own subscripts / pops stay safety obligations
     class_invariants: bool = False     # use the declared class invariants (schema.CLASS_INVARIANTS) as background axioms in this verification
     elementwise: Set[str] = field(default_factory=set)    # scalar parameters that may be given as a numpy array: the contract then holds element by element (assumed broadcasting)
+    numpy_arrays: bool = False         # list-kinded values in this function are numpy arrays: + - * / between them are element-wise, not concatenation
     verify_only: bool = False          # the body is verified against this contract, but call sites keep inlining the body (constructors)
 
     @property
